@@ -50,7 +50,7 @@ Observed(t, m) ==
     /\ last'.ret = t.ret              \* exactly these jobs were handed back, in this order
     /\ Len(t.rst) = Len(t.ret)
     /\ \A i \in 1 .. Len(t.ret) :     \* with exactly the status the model says they have
-          t.rst[i] = StCode(retst'[m][Len(retst'[m]) - Len(t.ret) + i])
+          t.rst[i] = StCode(last'.rst[i])
     /\ Has("out") => t.b_out = 0
     /\ Has("mem") => t.b_mem = 0
     /\ Has("desc") => t.b_desc = 0
@@ -104,9 +104,10 @@ StageStep(t, new) ==
 
 TraceInit ==
     /\ l = 1
+    /\ next = [m \in Mgr |-> 0]      \* the first Reset event supplies the real value (must precede
+                                      \* Init so that its `next \in ...' is a test, not an enumeration)
     /\ Init
     /\ suiteOf = <<>> /\ plan = <<>>
-    /\ next = [m \in Mgr |-> 0]      \* the first Reset event supplies the real value
 
 \* a new execution starts on a freshly allocated and initialised manager
 TReset ==
@@ -202,15 +203,49 @@ TFlushBurst ==
 TEnd ==
     /\ IsEvent("End")
     /\ LET t == Tr[l] m == M(t) IN
-       /\ Len(sublog[m]) = t.nsub
-       /\ Len(retlog[m]) = t.nret
+       /\ nsub[m] = t.nsub
+       /\ nret[m] = t.nret
        /\ t.nsub = t.nret
        /\ QSize(m) = 0
+       /\ t.abandoned_touched = 0               \* no residue: buffers of dropped jobs are never written again
        /\ Has("mem") => t.canary = 0
        /\ Has("abi") => t.abi_viol = 0
     /\ UNCHANGED <<vars, suiteOf, plan>>
 
+\* C15: init_mb_mgr_*() on a manager in any state, possibly with jobs in flight
+TReinit ==
+    /\ IsEvent("Reinit")
+    /\ LET t == Tr[l] m == M(t) IN
+       /\ InitMgr(m, t.next, 0)
+       /\ suiteOf' = <<>> /\ plan' = <<>>
+       /\ t.earliest = -1                       \* the empty state ...
+       /\ t.qsz = 0 /\ t.flush_null = 1 /\ t.getc_null = 1   \* ... nothing to flush or collect
+       /\ t.errno = 0
+       /\ t.arch = t.exp_arch /\ t.arch_type = t.exp_type      \* and it now is the requested variant
+       /\ Has("abi") => t.abi = 0
+
+\* C16: crash + imb_set_pointers_mb_mgr(reset = 0) in the same process: nothing observable changes
+TReattach ==
+    /\ IsEvent("Reattach")
+    /\ LET t == Tr[l] m == M(t) IN
+       /\ Reattach(m)
+       /\ t.same_ptr = 1 /\ t.done = <<>>
+       /\ earliest'[m] = t.earliest /\ next'[m] = t.next /\ t.errno = 0
+       /\ UNCHANGED <<suiteOf, plan>>
+
+\* C16: a forked process re-attached to the (copy of the) manager, flushed and verified every in-flight
+\* job (order, completion, run-alone result) and found the manager usable: child_rc = 0
+TForkReattach ==
+    /\ IsEvent("ForkReattach")
+    /\ LET t == Tr[l] m == M(t) IN
+       /\ t.child_rc = 0
+       /\ t.inflight = QSize(m)
+    /\ UNCHANGED <<vars, suiteOf, plan>>
+
+TFreshTwin == IsEvent("FreshTwin") /\ UNCHANGED <<vars, suiteOf, plan>>
+
 TraceNext ==
+    \/ TReinit \/ TReattach \/ TForkReattach \/ TFreshTwin
     \/ TReset \/ TGetNextJob \/ TSubmitJob \/ TFlushJob \/ TGetCompletedJob \/ TQueueSize
     \/ TGetNextBurst \/ TSubmitBurst \/ TFlushBurst \/ TEnd
 
